@@ -558,6 +558,64 @@ func isPtr(t types.Type) bool { _, ok := t.(*types.Pointer); return ok }
 func (c *canonT) resolveRenamedFields() {
 	fv := normalize.FieldVocab()
 	q := func(p *types.Package) string { return p.Name() }
+	// renamed types first: an unknown struct or interface type whose member list is exactly that of one
+	// absent type of the same package
+	for _, pk := range c.p.Closure {
+		sc := pk.Types.Scope()
+		sig := func(tn *types.TypeName) (string, bool) {
+			var parts []string
+			switch u := tn.Type().Underlying().(type) {
+			case *types.Interface:
+				for i := 0; i < u.NumMethods(); i++ {
+					parts = append(parts, normalize.MemberKey(u.Method(i).Name(), u.Method(i).Type(), true))
+				}
+			case *types.Struct:
+				for i := 0; i < u.NumFields(); i++ {
+					parts = append(parts, normalize.MemberKey(u.Field(i).Name(), u.Field(i).Type(), false))
+				}
+			default:
+				return "", false
+			}
+			return strings.Join(parts, "|"), len(parts) > 0
+		}
+		present := map[string]bool{}
+		var unknown []*types.TypeName
+		for _, name := range sc.Names() {
+			tn, ok := sc.Lookup(name).(*types.TypeName)
+			if !ok {
+				continue
+			}
+			cn := ir.TypeNameHook(tn)
+			present[cn] = true
+			if _, known := fv[pk.Types.Name()+"."+cn]; !known {
+				unknown = append(unknown, tn)
+			}
+		}
+		for _, tn := range unknown {
+			sg, ok := sig(tn)
+			if !ok {
+				continue
+			}
+			var cands []string
+			for key, members := range fv {
+				if !strings.HasPrefix(key, pk.Types.Name()+".") {
+					continue
+				}
+				nm := strings.TrimPrefix(key, pk.Types.Name()+".")
+				if present[nm] {
+					continue
+				}
+				if strings.Join(members, "|") == sg {
+					cands = append(cands, nm)
+				}
+			}
+			if len(cands) == 1 {
+				if n, isN := tn.Type().(*types.Named); isN {
+					c.aliasType(c.p.Rel(pk.PkgPath), cands[0], n)
+				}
+			}
+		}
+	}
 	for _, pk := range c.p.Closure {
 		sc := pk.Types.Scope()
 		for _, name := range sc.Names() {
